@@ -77,6 +77,15 @@ def poly(t, atomize=None):
             d = poly(r, atomize)
             if list(d.keys()) == [()]:
                 return {m: c / d[()] for m, c in poly(l, atomize).items()}
+        if op == "//" and is_const(r, 2):
+            # n(n-1) // 2 is n(n-1) / 2: a product of consecutive integers is even
+            num = poly(l, atomize)
+            mons = {m: c for m, c in num.items()}
+            if len(mons) == 2:
+                lin = [m for m in mons if len(m) == 1]
+                sq = [m for m in mons if len(m) == 2 and m[0] == m[1]]
+                if len(lin) == 1 and len(sq) == 1 and sq[0][0] == lin[0][0] and mons[sq[0]] == 1 and abs(mons[lin[0]]) == 1:
+                    return {m: c / 2 for m, c in num.items()}
         if op == "**" and is_const(r) and isinstance(r[1], int) and 0 <= r[1] <= 4:
             p = pconst(1)
             for _ in range(r[1]):
